@@ -8,8 +8,12 @@ exact-arithmetic helpers of the tree under test:
                            data / base / unit / degree, PolynomialTraits, leading_coefficient
   pymbolic/traits.py       traits, common_traits (rule chain), IntegerTraits.norm / get_unit, EuclideanRingTraits.gcd /
                            gcd_extended / lcm
-  pymbolic/rational.py     Rational.__init__, __neg__, __bool__, the properties
-  pymbolic/mapper/evaluator.py   EvaluationMapper.map_polynomial
+  pymbolic/rational.py     Rational.__init__, __neg__, __bool__, reciprocal, the properties, and whichever of
+                           __add__ / __radd__ / __sub__ / __rsub__ / __mul__ / __rmul__ / __div__ / __rdiv__ /
+                           __truediv__ / __rtruediv__ / __pow__ the class itself defines (aliases such as
+                           `__radd__ = __add__` are translated under their own name)
+  pymbolic/primitives.py   quotient
+  pymbolic/mapper/evaluator.py   EvaluationMapper.map_polynomial, map_quotient
   pymbolic/mapper/__init__.py    IdentityMapper.map_polynomial
 
 Every function BODY is translated statement by statement into the small imperative language of
@@ -38,7 +42,15 @@ What is NOT translated by the general reader, and how it is handled instead:
     ordered rule list of `common_traits_two` (field `commonTraits` of the table); a call of it
     becomes `.commonTraits [args]`, which the interpreter evaluates with `traits.traits` of the
     table and that rule list;
-  * `sym_fft`: only the data flow of the returned expression is recorded (`symFftFlow`).
+  * `sym_fft`: the data flow of the returned expression is recorded (`symFftFlow`), and its two
+    nested definitions (`NearZeroKiller`, `wrap_intermediate`) are matched against known shapes and
+    recorded as tags (`symFftParts`);
+  * `try` with SEVERAL `except` clauses is desugared with a selector variable `_handler` (the first
+    matching clause runs, a later clause never catches what a handler raises; clauses naming
+    related classes are refused);
+  * `module.Class.method(self, …)` (an unbound method of a class outside the table, e.g.
+    `primitives.Expression.__add__`) and the constructor of a class outside the table (e.g.
+    `Quotient(…)`) become calls of the external names `Class.method` / `module.Class`.
 
 An unknown statement / expression shape is an `ExtractError` (reported by the check as a broken
 obligation) — never a default.
@@ -173,6 +185,9 @@ class Scope:
         self.locals -= set(self.imports) - params
         for pn in params:
             self.imports.pop(pn, None)
+
+    def lookup_is_local(self, name):
+        return name in self.locals
 
     def lookup(self, name):
         """('local', None) | ('obj', live object)"""
@@ -357,7 +372,17 @@ class Translator:
                         raise ExtractError(f"{what}: {obj.__name__} has no {f.attr}")
                     return self.call_obj(n, target, f.attr, sc, what)
             recv = f.value
-            if isinstance(recv, ast.Name) or isinstance(recv, (ast.Attribute, ast.Call)):
+            # module.Class.method(self, …): an unbound method of a class reached through a module
+            if (isinstance(recv, ast.Attribute) and isinstance(recv.value, ast.Name)
+                    and sc.lookup(recv.value.id)[0] == "obj"
+                    and isinstance(sc.lookup(recv.value.id)[1], types.ModuleType)
+                    and isinstance(getattr(sc.lookup(recv.value.id)[1], recv.attr, None), type)):
+                cls = getattr(sc.lookup(recv.value.id)[1], recv.attr)
+                raw = next((k.__dict__[f.attr] for k in cls.__mro__ if f.attr in k.__dict__), None)
+                if not isinstance(raw, types.FunctionType):
+                    raise ExtractError(f"{what}: `{short(f)}` is not a plain method")
+                return f'(.call {q(qualname_of(raw))} {self.plain_args(n, sc, what)})'
+            if isinstance(recv, ast.Name) or isinstance(recv, (ast.Attribute, ast.Call, ast.UnaryOp)):
                 if f.attr in self.fields:
                     # a call of an instance attribute that holds a callable
                     return (f'(.method (.attr {self.expr(recv, sc, what)} {q(f.attr)}) "__call__" '
@@ -392,6 +417,12 @@ class Translator:
             if name not in BUILTINS:
                 raise ExtractError(f"{what}: builtin {name} is outside the language")
             return f'(.call {q(name)} {self.plain_args(n, sc, what)})'
+        if isinstance(obj, type) and self.known_classes.get(obj.__name__) is not obj:
+            # a class outside the table: its constructor is an external name
+            if any(isinstance(a, ast.Starred) for a in n.args) or n.keywords:
+                raise ExtractError(f"{what}: unreadable constructor call `{short(n)}`")
+            mod = importlib.import_module(obj.__module__)
+            return f'(.call {q(modtag(mod) + "." + obj.__name__)} {self.plain_args(n, sc, what)})'
         if isinstance(obj, type):
             init = obj.__dict__.get("__init__") or next(
                 (k.__dict__["__init__"] for k in obj.__mro__[:-1] if "__init__" in k.__dict__), None)
@@ -521,7 +552,9 @@ class Translator:
         out = []
         for s in body:
             r = self.stmt(s, sc, what, ind)
-            if r is not None:
+            if isinstance(r, list):
+                out.extend(r)
+            elif r is not None:
                 out.append(r)
         return out
 
@@ -592,14 +625,51 @@ class Translator:
             return (f".for {self.pattern(s.target, what)} {self.expr(s.iter, sc, what)} "
                     f"{self.block(s.body, sc, what, ind)}")
         if isinstance(s, ast.Try):
-            if (s.orelse or s.finalbody or len(s.handlers) != 1 or s.handlers[0].name
-                    or not isinstance(s.handlers[0].type, ast.Name)):
+            if s.orelse or s.finalbody or not s.handlers or any(h.name for h in s.handlers):
                 raise ExtractError(f"{what}: try statement `{short(s)}` is outside the language")
-            kind, obj = sc.lookup(s.handlers[0].type.id)
-            if not (kind == "obj" and isinstance(obj, type) and issubclass(obj, BaseException)):
-                raise ExtractError(f"{what}: except clause does not name an exception class")
-            return (f".tryExcept {self.block(s.body, sc, what, ind)} {q(obj.__name__)} "
-                    f"{self.block(s.handlers[0].body, sc, what, ind)}")
+            kinds = []
+            for h in s.handlers:
+                t = h.type
+                obj = None
+                if isinstance(t, ast.Name):
+                    kind, obj = sc.lookup(t.id)
+                    if kind != "obj":
+                        obj = None
+                elif isinstance(t, ast.Attribute) and isinstance(t.value, ast.Name):
+                    kind, m = sc.lookup(t.value.id)
+                    if kind == "obj" and isinstance(m, types.ModuleType):
+                        obj = getattr(m, t.attr, None)
+                if not (isinstance(obj, type) and issubclass(obj, BaseException)):
+                    raise ExtractError(f"{what}: except clause does not name an exception class")
+                kinds.append(obj)
+            if len(kinds) == 1:
+                return (f".tryExcept {self.block(s.body, sc, what, ind)} {q(kinds[0].__name__)} "
+                        f"{self.block(s.handlers[0].body, sc, what, ind)}")
+            # several handlers: the FIRST matching clause runs, and an exception raised inside a
+            # handler is not caught by a later clause.  Desugared with a selector variable:
+            #     _handler = 0
+            #     try: (try: BODY except K1: _handler = 1) except K2: _handler = 2
+            #     if _handler == 1: H1  elif _handler == 2: H2
+            # (classes are matched by name: no clause may name a base class of a later one)
+            for i, a in enumerate(kinds):
+                for b in kinds[i + 1:]:
+                    if issubclass(b, a) or issubclass(a, b):
+                        raise ExtractError(f"{what}: except clauses {a.__name__} / {b.__name__} "
+                                           f"are related classes")
+            sel = "_handler"
+            if sc.lookup_is_local(sel):
+                raise ExtractError(f"{what}: the name {sel} is used by the function")
+            pad = " " * (ind + 2)
+            inner = self.block(s.body, sc, what, ind)
+            for i, k in enumerate(kinds):
+                inner = (f"[\n{pad}.tryExcept {inner} {q(k.__name__)} "
+                         f"[.assign (.pat (.name {q(sel)})) {lint(i + 1)}]]")
+            chain = "[]"
+            for i in reversed(range(len(kinds))):
+                chain = (f"[\n{pad}.ite (.cmp .eq (.var {q(sel)}) {lint(i + 1)}) "
+                         f"{self.block(s.handlers[i].body, sc, what, ind + 2)} {chain}]")
+            return [f".assign (.pat (.name {q(sel)})) {lint(0)}", inner[1:-1].strip(),
+                    chain[1:-1].strip()]
         raise ExtractError(f"{what}: statement `{short(s)}` is outside the language")
 
     # }}}
@@ -611,6 +681,9 @@ class _ChildScope:
         self.extra = extra
         self.keyfuns = parent.keyfuns
         self.what = parent.what
+
+    def lookup_is_local(self, name):
+        return name in self.extra or self.parent.lookup_is_local(name)
 
     def lookup(self, name):
         if name in self.extra:
@@ -784,6 +857,55 @@ def read_sym_fft(fn, what):
     return ast.unparse(rets[0].value).replace("\n", " ")
 
 
+SYM_FFT_WRAP_SHAPE = (
+    "def wrap_intermediate(x):\n"
+    "    if len(x) > 1:\n"
+    "        from pymbolic.primitives import CommonSubexpression\n"
+    "        result = numpy.empty(len(x), dtype=object)\n"
+    "        for i, x_i in enumerate(x):\n"
+    "            result[i] = CommonSubexpression(x_i)\n"
+    "        return result\n"
+    "    else:\n"
+    "        return x")
+
+SYM_FFT_KILLER_SHAPE = (
+    "class NearZeroKiller(CSECachingMapperMixin, IdentityMapper):\n"
+    "    map_common_subexpression_uncached = IdentityMapper.map_common_subexpression\n"
+    "\n"
+    "    def map_constant(self, expr):\n"
+    "        if isinstance(expr, complex):\n"
+    "            r = expr.real\n"
+    "            i = expr.imag\n"
+    "            if abs(r) < 1e-15:\n"
+    "                r = 0\n"
+    "            if abs(i) < 1e-15:\n"
+    "                i = 0\n"
+    "            if i == 0:\n"
+    "                return r\n"
+    "            else:\n"
+    "                return complex(r, i)\n"
+    "        else:\n"
+    "            return expr")
+
+
+def read_sym_fft_parts(fn, what):
+    """the two nested definitions of `sym_fft`, recognised by shape (like the parameter block of
+    `fft`): `wrap_intermediate` wraps every entry of an array longer than one in a
+    CommonSubexpression; `NearZeroKiller` is an identity mapper that rewrites COMPLEX constants
+    only.  -> ordered tags"""
+    f = fn_ast(fn, what)
+    shapes = {ast.unparse(ast.parse(SYM_FFT_WRAP_SHAPE)): "wrapIsCseEachIfLongerThanOne",
+              ast.unparse(ast.parse(SYM_FFT_KILLER_SHAPE)): "nearZeroKillerRewritesComplexConstantsOnly"}
+    tags = []
+    for st in strip_doc(f.body):
+        if isinstance(st, (ast.FunctionDef, ast.ClassDef)):
+            tag = shapes.get(ast.unparse(st))
+            if tag is None:
+                raise ExtractError(f"{what}: the nested definition {st.name} has an unknown shape")
+            tags.append(tag)
+    return tags
+
+
 FUNCTIONS = [
     # (module, attribute path, kind)
     ("pymbolic.algorithm", "integer_power", "func"),
@@ -796,6 +918,7 @@ FUNCTIONS = [
     ("pymbolic.polynomial", "_sort_uniq", "func"),
     ("pymbolic.polynomial", "leading_coefficient", "func"),
     ("pymbolic.traits", "traits", "func"),
+    ("pymbolic.primitives", "quotient", "func"),
 ]
 
 CLASSES = [
@@ -811,8 +934,10 @@ CLASSES = [
     ("pymbolic.traits", "FieldTraits", []),
     ("pymbolic.traits", "IntegerTraits", ["norm", "get_unit"]),
     ("pymbolic.rational", "Rational", ["__init__", "__neg__", "__bool__", "numerator", "denominator",
-                                       "reciprocal"]),
-    ("pymbolic.mapper.evaluator", "EvaluationMapper", ["map_polynomial"]),
+                                       "reciprocal", "?__add__", "?__radd__", "?__sub__", "?__rsub__",
+                                       "?__mul__", "?__rmul__", "?__div__", "?__rdiv__",
+                                       "?__truediv__", "?__rtruediv__", "?__pow__"]),
+    ("pymbolic.mapper.evaluator", "EvaluationMapper", ["map_polynomial", "map_quotient"]),
     ("pymbolic.mapper", "IdentityMapper", ["map_polynomial"]),
 ]
 
@@ -892,6 +1017,10 @@ def algo_table(ctx=None):
     for m, cname, attrs in CLASSES:
         cls = classes[cname]
         for attr in attrs:
+            optional = attr.startswith("?")     # translated when the class itself defines it
+            attr = attr.lstrip("?")
+            if optional and attr not in cls.__dict__:
+                continue
             raw = None
             for k in cls.__mro__:
                 if attr in k.__dict__:
@@ -939,7 +1068,9 @@ def algo_table(ctx=None):
     tr_mod = mods["pymbolic.traits"]
     rules = read_common_traits(tr_mod.common_traits, "traits.common_traits")
     sym = read_sym_fft(mods["pymbolic.algorithm"].sym_fft, "algorithm.sym_fft")
-    return dict(fns=fns, classes=class_rows, preamble=preamble, rules=rules, sym=sym)
+    sym_parts = read_sym_fft_parts(mods["pymbolic.algorithm"].sym_fft, "algorithm.sym_fft")
+    return dict(fns=fns, classes=class_rows, preamble=preamble, rules=rules, sym=sym,
+                sym_parts=sym_parts)
 
 
 def render(t):
@@ -966,6 +1097,9 @@ def render(t):
     L.append("")
     L.append("/-- the expression `sym_fft` returns -/")
     L.append(f"def c19SymFftFlow : String := {q(t['sym'])}")
+    L.append("")
+    L.append("/-- the nested definitions of `sym_fft`, by recognised shape, in order -/")
+    L.append("def c19SymFftParts : List String := [" + ", ".join(q(x) for x in t["sym_parts"]) + "]")
     L.append("")
     L.append("end PV.Generated")
     return "\n".join(L) + "\n"
